@@ -171,10 +171,7 @@ def contraction_slack(post: Snapshot, want: np.ndarray, want_names: Sequence[str
     (deficit 1 - Tr rho^2 below 1e-5), that documented replacement moves the state by about the deficit:
     this much extra distance is accepted. A block contracted although its deficit is >= 1e-5 gets no
     slack and is flagged as before."""
-    from photon_weave.photon_weave import Config
-
-    if not Config().contractions:
-        return 0.0
+    # (independent of the Config switch: Envelope.apply_kraus contracts unconditionally)
     slack = 0.0
     for b in post.blocks:
         if b.rep == "matrix":
